@@ -4,7 +4,7 @@ no box of the next level covers it.  Fragment of the inner loop body, mechanical
 import ast
 import z3
 from pyvc.vals import *  # noqa
-from pyvc.task import FragmentTask
+from pyvc.task import FragmentTask, Task
 from pyvc.vc import veq
 
 PE = "amr_kitchen.pestle.pestle."
@@ -210,9 +210,144 @@ class MapResolution(FragmentTask):
                                z3.And(z3.Exists([k1], inp["LO"][lv][b][d] == g * k1), z3.Exists([k2], inp["HI"][lv][b][d] + 1 == g * k2)), "P")
 
 
+class IntegralOrchestration(Task):
+    """volume_integral as a whole on a bounded skeleton (real code; three levels, concrete boxes and occupancy maps; workers and
+    expand_array3d by contract): the task of box b of level lv < limit gets THAT box's file and offset, THAT level's cell
+    volume and the covering mask of box b of level lv (compared cell by cell with the mask computed from the skeleton); the
+    finest level is integrated unmasked; the result is the sum of all workers' results."""
+    prop = "C09"
+    reach = "S"
+    qual = PE + "volume_integral"
+
+    def __init__(self, limit, use_volfrac):
+        self.limit, self.volfrac = limit, use_volfrac
+        self.name = f"volume_integral.orchestration[limit={limit},volfrac={use_volfrac}]"
+
+    # the skeleton: boxes (lo, hi) per level, refinement 2, occupancy maps at resolution g=2 fine cells per map cell
+    BOXES = [[((0, 0, 0), (1, 1, 1)), ((2, 0, 0), (3, 1, 1))],
+             [((2, 0, 0), (5, 3, 3)), ((0, 0, 0), (1, 3, 3))],
+             [((4, 0, 0), (7, 7, 7))]]
+    N0 = (4, 2, 2)
+    G = 2
+
+    def skeleton(self):
+        import numpy as np
+        grids = [tuple(n * 2 ** lv for n in self.N0) for lv in range(3)]
+        maps = []
+        for lv in range(3):
+            m = -np.ones(tuple(n // self.G for n in grids[lv]), dtype=int)
+            for b, (lo, hi) in enumerate(self.BOXES[lv]):
+                m[tuple(slice(l // self.G, h // self.G + 1) for l, h in zip(lo, hi))] = b
+            maps.append(m)
+        return grids, maps
+
+    def expected_mask(self, lv, b):
+        import numpy as np
+        grids, maps = self.skeleton()
+        lo, hi = self.BOXES[lv][b]
+        shp = tuple(h - l + 1 for l, h in zip(lo, hi))
+        out = np.zeros(shp, dtype=bool)
+        for m in np.ndindex(*shp):
+            fine = tuple(2 * (l + x) for l, x in zip(lo, m))
+            out[m] = maps[lv + 1][tuple(f // self.G for f in fine)] == -1
+        return out
+
+    def setup(self, ex):
+        import numpy as np
+        grids, maps = self.skeleton()
+        calls = []
+        W = z3.Function("WORKER", I, z3.RealSort())
+
+        def worker(kind):
+            def c(ex_, args, kw):
+                calls.append((kind, args[0]))
+                return W(z3.IntVal(len(calls) - 1))
+            return c
+        def expand3_concrete(ex_, args, kw):
+            """the same contract as expand3_contract (out[x,y,z] = arr[x//f, y//f, z//f]) for a concrete factor and shape"""
+            from pyvc.ops import as_ndarray
+            a = as_ndarray(args[0])
+            f = as_const(to_z3(args[1]))
+            if not isinstance(f, int) or f < 0:
+                raise Unsupported("expand_array3d: symbolic factor in a concrete skeleton")
+            e, _ = a.snapshot()
+            sh = [as_const(to_z3(n)) * f for n in a.shape]
+
+            def el(ix):
+                c = [as_const(to_z3(i)) for i in ix]
+                if any(not isinstance(x, int) for x in c):
+                    raise Unsupported("expand_array3d: symbolic index in a concrete skeleton")
+                return e(tuple(x // f for x in c))
+            return NDArray(sh, el, a.dtype)
+        self.contracts = {PE + "increment_sum_masked": worker("masked"), PE + "increment_sum": worker("plain"),
+                          "amr_kitchen.utils.expand_array3d": expand3_concrete}
+
+        def conc(a):
+            a = np.asarray(a)
+            return NDArray(list(a.shape), lambda ix, a=a: int(a[tuple(as_const(to_z3(i)) for i in ix)]), "int")
+        cells = [{"indexes": [[Vec(list(lo), "array"), Vec(list(hi), "array")] for lo, hi in self.BOXES[lv]],
+                  "files": [f"Level_{lv}/Cell_D_{b:05d}" for b in range(len(self.BOXES[lv]))],
+                  "offsets": [1000 * lv + 10 * b for b in range(len(self.BOXES[lv]))]} for lv in range(3)]
+        dx = [Vec([0.5 / 2 ** lv, 0.25 / 2 ** lv, 1.0 / 2 ** lv], "array") for lv in range(3)]
+        pck = Record("amr_kitchen.plotfile_cooker.PlotfileCooker", fields={"rho": 0, "volFrac": 1, "temp": 2}, pfile="plt",
+                     limit_level=2, grid_sizes=[Vec(list(g), "array") for g in grids], box_arrays=[conc(m) for m in maps],
+                     cells=cells, boxes=[list(range(len(b))) for b in self.BOXES], dx=dx)
+        return {"args": [pck, "temp"], "kwargs": {"limit_level": self.limit, "use_volfrac": self.volfrac}, "calls": calls, "W": W,
+                "cells": cells}
+
+    def call(self, ex, inp):
+        return ex.call_qual(self.qual, inp["args"], inp["kwargs"])
+
+    def post(self, ex, inp, out):
+        import numpy as np
+        ctx = ex.ctx
+        ctx.oblige("raises-nothing", out.kind == "ret", "P", note=str(out.exc) if out.kind != "ret" else "")
+        if out.kind != "ret":
+            return
+        L = 2 if self.limit is None else self.limit
+        want = [(lv, b) for lv in range(L + 1) for b in range(len(self.BOXES[lv]))]
+        calls = inp["calls"]
+        ctx.oblige("post.one-task-per-box-of-every-level-up-to-the-limit", len(calls) == len(want), "P", note=f"{len(calls)} vs {len(want)}")
+        if len(calls) != len(want):
+            return
+        W = inp["W"]
+        total = z3.RealVal(0)
+        for k in range(len(calls)):
+            total = total + W(z3.IntVal(k))
+        ctx.oblige("post.integral-is-the-sum-of-the-workers-results", veq(ctx, out.value, total), "P")
+        for k, ((lv, b), (kind, a)) in enumerate(zip(want, calls)):
+            ok = isinstance(a, dict)
+            tag = f"[level {lv}, box {b}]"
+            ctx.oblige(f"post.task-is-a-dict{tag}", ok, "P")
+            if not ok:
+                continue
+            ctx.oblige(f"post.masked-below-the-limit-only{tag}", kind == ("masked" if lv < L else "plain"), "P")
+            ctx.oblige(f"post.own-file-and-offset{tag}", a.get("file") == inp["cells"][lv]["files"][b] and
+                       veq(ctx, a.get("offset"), inp["cells"][lv]["offsets"][b]), "P")
+            ctx.oblige(f"post.field-and-volume-fraction-components{tag}", veq(ctx, a.get("id_int"), 2) and
+                       (veq(ctx, a.get("id_vol"), 1) if self.volfrac else a.get("id_vol") is None), "P")
+            dv = (0.5 / 2 ** lv) * (0.25 / 2 ** lv) * (1.0 / 2 ** lv)
+            ctx.oblige(f"post.cell-volume-of-its-level{tag}", veq(ctx, a.get("dV"), dv), "P", note=str(a.get("dV")))
+            if lv < L:
+                m = a.get("covering_mask")
+                exp = self.expected_mask(lv, b)
+                okm = isinstance(m, NDArray) and [as_const(to_z3(x)) for x in m.shape] == list(exp.shape)
+                if okm:
+                    for ix in np.ndindex(*exp.shape):
+                        v = m.elem(tuple(ix))
+                        v = as_const(v) if is_z3(v) else v
+                        if not isinstance(v, bool):
+                            v = bool(ctx.entails(to_z3(v))) if exp[ix] else (not ctx.entails(z3.Not(to_z3(v))))
+                        if v != bool(exp[ix]):
+                            okm = False
+                            break
+                ctx.oblige(f"post.covering-mask-of-this-box{tag}", okm, "P")
+
+
 def parent_tasks(tier):
     gs = (2, 4, 8) if tier == "quick" else (2, 4, 6, 8, 16, 32)
-    return [CoveringMask(g) for g in gs] + [OccupancyMap(g) for g in ((4,) if tier == "quick" else (2, 4, 8))] + [MapResolution()]
+    return [CoveringMask(g) for g in gs] + [OccupancyMap(g) for g in ((4,) if tier == "quick" else (2, 4, 8))] + [MapResolution()] + \
+        [IntegralOrchestration(None, False), IntegralOrchestration(1, True), IntegralOrchestration(2, True), IntegralOrchestration(0, False)]
 
 
 def parent_canaries():
